@@ -164,6 +164,11 @@ class NameKinds:
                                 kinds.add(self.kind(ve, f))
             elif isinstance(n, ast.NamedExpr) and isinstance(n.target, ast.Name) and n.target.id == name:
                 kinds.add(self.kind(n.value, f))
+            elif isinstance(n, ast.Call) and isinstance(n.func, ast.Attribute) and n.func.attr in ('append', 'add') and isinstance(n.func.value, ast.Name) and n.func.value.id == name and n.args:
+                ekinds.add(self.kind(n.args[0], f))
+            elif isinstance(n, ast.AnnAssign) and isinstance(n.target, ast.Name) and n.target.id == name and n.value is not None:
+                kinds.add(self.kind(n.value, f))
+                ekinds.add(self.elem_kind(n.value, f))
             elif isinstance(n, (ast.For, ast.comprehension)):
                 tgt, it = n.target, n.iter
                 if isinstance(tgt, ast.Name) and tgt.id == name:
@@ -220,8 +225,16 @@ class NameKinds:
         return out
 
 
-def mentions_separator(expr) -> bool:
-    """The pattern operand carries the name separator (`::` or `:`) as literal text."""
+def mentions_separator(expr, A: Optional[Analysis] = None, func: Optional[FuncInfo] = None) -> bool:
+    """The pattern operand carries the name separator (`::` or `:`) as literal text (also through a single-assignment local)."""
+    if A is not None and func is not None and isinstance(expr, ast.Name):
+        seen = 0
+        while isinstance(expr, ast.Name) and seen < 4:
+            defs = A.sym._local_defs(func).get(expr.id)
+            if not defs or len(defs) != 1 or defs[0][0] != 'assign' or expr.id in func.params:
+                break
+            expr = defs[0][1]
+            seen += 1
     for n in ast.walk(expr):
         if isinstance(n, ast.Constant) and isinstance(n.value, str) and ':' in n.value:
             return True
@@ -243,7 +256,7 @@ def textual_tests(A: Analysis, NK: NameKinds, func: FuncInfo):
         if isinstance(n, ast.Call) and isinstance(n.func, ast.Attribute) and n.func.attr in ('startswith', 'endswith') and len(n.args) >= 1:
             X, Y = n.func.value, n.args[0]
             kx, ky = NK.kind(X, func), NK.kind(Y, func)
-            if kx and (ky or mentions_separator(Y)):
+            if kx and (ky or mentions_separator(Y, A, func)):
                 yield n, n.func.attr, X, Y, kx, ky
         elif isinstance(n, ast.Compare) and len(n.ops) == 1 and isinstance(n.ops[0], (ast.In, ast.NotIn)):
             Y, X = n.left, n.comparators[0]
